@@ -196,7 +196,7 @@ impl Prop for C17 {
         "C17"
     }
     fn rule(&self) -> String {
-        "enumerated: the mixed-radix iterator on all 340 shapes with 1-4 axes of 1-4 options (consumed through take(expected+1)); generated: iterator shapes up to 6 axes x 6 options; query objects with 0-5 extra fields of all JSON types, a grid section with 1-4 array fields of 1-4 distinct choices (numbers, strings, null, objects with 1-2 keys, mixtures), 0-2 non-array members, any key order and grid-key position, axis names that override a base field, run through the plugin directly and through apply_input_plugins; queries without a grid section. non-trivial = at least 2 axes with different lengths, one of length 1 and one object-valued choice".to_string()
+        "enumerated: the mixed-radix iterator on all 340 shapes with 1-4 axes of 1-4 options (consumed through take(expected+1)); generated: iterator shapes up to 6 axes x 6 options; query objects with 0-5 extra fields of all JSON types, a grid section with 1-4 array fields of 1-4 distinct choices (numbers, strings, null, objects with 1-2 keys, mixtures), 0-2 non-array members, any key order and grid-key position, axis names that override a base field, one case in 300 with two axes of 18-45 choices (products of several hundred to several thousand), run through the plugin directly and through apply_input_plugins; queries without a grid section. non-trivial = at least 2 axes with different lengths, one of length 1 and one object-valued choice".to_string()
     }
     fn cases(&self, tier: Tier) -> u32 {
         tier.pick(40_000, 1_500_000)
@@ -253,11 +253,30 @@ impl Prop for C17 {
                 rotate,
                 through_pipeline,
             });
+        // large products (hundreds to thousands of combinations): two long axes and a short one
+        let long_axis = proptest::collection::vec(prop_oneof![3 => 0u8..3, 2 => 3u8..5], 18..=45).prop_map(|choices| Axis {
+            overrides_base: None,
+            choices,
+        });
+        let short_axis = proptest::collection::vec(0u8..3, 1..=3).prop_map(|choices| Axis {
+            overrides_base: None,
+            choices,
+        });
+        let big_grid = (0u8..=3, long_axis.clone(), long_axis, short_axis, any::<u8>(), any::<bool>()).prop_map(
+            |(base_fields, a, b, c, rotate, through_pipeline)| C17Case::Grid {
+                base_fields,
+                axes: vec![a, b, c],
+                non_array_fields: 0,
+                grid_pos: 0,
+                rotate,
+                through_pipeline,
+            },
+        );
         let nogrid = (0u8..=5, any::<bool>()).prop_map(|(base_fields, through_pipeline)| C17Case::NoGrid {
             base_fields,
             through_pipeline,
         });
-        prop_oneof![2 => ms, 12 => grid, 1 => nogrid].boxed()
+        prop_oneof![40 => ms, 240 => grid, 20 => nogrid, 1 => big_grid].boxed()
     }
     fn check(&self, case: &C17Case) -> Outcome {
         let mut o = Outcome::new();
@@ -318,6 +337,7 @@ impl Prop for C17 {
                     && b.axis_lens.contains(&1)
                     && b.any_object;
                 o.label(format!("axes-{}", b.axis_lens.len()));
+                o.label_if(b.axis_lens.iter().product::<usize>() > 1024, "product->1024");
                 o.label_if(b.any_object, "object-valued-choice");
                 o.label_if(*through_pipeline, "through-apply_input_plugins");
                 o.label_if(*non_array_fields > 0, "non-array-grid-members");
